@@ -7,12 +7,11 @@ package crypto
 
 //@ -- the same predicate as CanonicalScalar of zz_contracts_c30_verif.go, stated on the key value
 //@ spec CanonicalScalarKey(k Key) bool = CanonicalScalar(seq(k))
-//@ uninterp ValidPoint(k Key) bool
+//@ -- (C32) defined: the key bytes pass the three tests of decodePoint (ValidPointBytes: zz_contracts_c32_verif.go); was uninterpreted
+//@ spec ValidPoint(k Key) bool = ValidPointBytes(seq(k))
 
 //@ -- CheckKey decodes the point and reports the error: total.
-//@ assume func (k Key) CheckKey
-//@   pure
-//@   ensures result <==> ValidPoint(k)
+//@ -- (Key).CheckKey: VERIFIED contract in zz_contracts_c32_verif.go (pure; result <==> ValidPoint(k))
 
 //@ -- Public panics on a non-canonical scalar (SetCanonicalBytes error).
 //@ -- (Key).Public: assumed contract in zz_contracts_c30_verif.go (panics when the scalar is not canonical)
@@ -20,18 +19,15 @@ package crypto
 //@ -- NewKeyFromSeed(64 bytes): SetUniformBytes never fails on 64 bytes and yields a reduced (canonical) scalar.
 //@ -- (Key).DeterministicHashDerive: assumed contract in zz_contracts_c30_verif.go (result is a canonical scalar)
 
-//@ assume func (k Key) String
-//@   pure
+//@ -- (Key).String: VERIFIED contract in zz_contracts_c32_codec_verif.go (pure; result == HexOf(seq(k)))
 
 //@ assume func (k Key) HasValue
 //@   pure
 //@   ensures result <==> exists i int :: 0 <= i && i < 32 && k[i] != 0
 
-//@ assume func (h Hash) String
-//@   pure
+//@ -- (Hash).String: VERIFIED contract in zz_contracts_c32_codec_verif.go (pure; result == HexOf(seq(h)))
 
-//@ assume func (s Signature) String
-//@   pure
+//@ -- (Signature).String: VERIFIED contract in zz_contracts_c32_codec_verif.go (pure; result == HexOf(seq(s)))
 
 //@ -- (Hash).ForNetwork: verified contract in zz_contracts_c30_verif.go
 
@@ -50,26 +46,16 @@ package crypto
 //@       (forall a int :: 0 <= a && a < len(keys) ==> keys[a] != nil && sigs[a] != nil && SigOK(seq(*keys[a]), seq(msg), seq(*sigs[a])))
 
 //@ -- AggregateVerify: nil signature, empty / unordered / out-of-range signers, nil or undecodable publics are reported as errors. Total.
-//@ -- C02 (T-CRYPTO): AggSigner(sig, msg, n, pos, index, key) reads "sig is an aggregate signature on msg that verifies under the signer transcript of
-//@ -- n entries whose entry number pos is (index, key)" (collectAggregateSigners builds exactly that transcript: count, then index and key bytes of every
-//@ -- signer; the weighted public key and the challenge are functions of it). Uninterpreted; the structural part (non-nil, in range) is visible in the code.
+//@ -- C02 (T-CRYPTO): AggSigner(sig, msg, n, pos, index, key) reads "there are a key vector and a strictly increasing signer list of n entries whose entry
+//@ -- number pos is (index, key) such that sig verifies on msg under the weighted aggregate key of exactly that vector and list" (WKeyOf / SigOK of
+//@ -- zz_contracts_c14_verif.go). Uninterpreted; introduced by the `assumes [c02-transcript]` clause of the verified AggregateVerify contract (C14 file),
+//@ -- which is the pointwise reading of its [sig] postcondition. It lets C02 name the verified keys by VALUE, without the caller-local key vector.
 //@ uninterp AggSigner(sig mathint, msg mathint, n mathint, pos mathint, index mathint, key mathint) bool
-//@ assume func AggregateVerify(sig, publics, signers, message)
-//@   modifies nothing
-//@   ensures [c02-agg] result == nil ==> sig != nil && len(signers) > 0 && (forall i int :: 0 <= i && i < len(signers) ==>
-//@       0 <= signers[i] && signers[i] < len(publics) && publics[signers[i]] != nil &&
-//@       AggSigner(seq(*sig), seq(message), len(signers), i, signers[i], seq(*publics[signers[i]])))
+//@ -- AggregateVerify: VERIFIED contract in zz_contracts_c14_verif.go (modifies nothing, total; it replaces the assumed
+//@ -- `modifies nothing` that stood here)
 
 //@ -- KeyMultPubPriv panics on an undecodable point or a non-canonical scalar.
-//@ assume func KeyMultPubPriv(pub, priv)
-//@   requires pub != nil && priv != nil
-//@   panics when !ValidPoint(*pub) || !CanonicalScalarKey(*priv)
-//@   modifies nothing
+//@ -- KeyMultPubPriv: VERIFIED contract in zz_contracts_c32_verif.go (same requires / panics when / modifies nothing, plus the result)
 
 //@ -- ViewGhostOutputKey(P, a, R, i) = P - Hs(a*R, i)*G: panics via KeyMultPubPriv(R, a) and on an undecodable P.
-//@ assume func ViewGhostOutputKey(P, a, R, outputIndex)
-//@   requires P != nil && a != nil && R != nil
-//@   panics when !ValidPoint(*R) || !CanonicalScalarKey(*a) || !ValidPoint(*P)
-//@   modifies nothing
-//@   fresh
-//@   ensures result != nil
+//@ -- ViewGhostOutputKey: VERIFIED contract in zz_contracts_c32_verif.go (same requires / panics when / modifies nothing; result != nil && fresh(result), plus its value)
